@@ -742,6 +742,17 @@ fn freshness__repeated_calls_never_repeat() {
         let _ = h.decrypt(&cc, &usk, None).unwrap().unwrap();
         n += 1;
     }
+    // re-encapsulation draws fresh randomness too, and does not disturb later encapsulations
+    {
+        let (_s0, e0) = cc.encaps(&mpk, &ap("SEC::LOW && DPT::FIN")).unwrap();
+        let (mut rs, mut rt) = (BTreeSet::new(), BTreeSet::new());
+        for i in 0..40 {
+            let (s, e) = if i % 3 == 2 { cc.encaps(&mpk, &ap("SEC::LOW && DPT::FIN")).unwrap() } else { cc.recaps(&msk, &mpk, &e0).unwrap() };
+            assert!(rs.insert(s.to_vec()), "C16: a re-encapsulation (or the encapsulation following it) repeats a secret");
+            assert!(rt.insert(e.tag), "C16: a re-encapsulation (or the encapsulation following it) repeats a tag");
+            n += 1;
+        }
+    }
     let mut ids = BTreeSet::new();
     for _ in 0..reps {
         let k = cc.generate_user_secret_key(&mut msk, &ap("DPT::FIN")).unwrap();
@@ -796,11 +807,13 @@ fn tracing__issued_keys_are_registered_and_valid() {
     println!("VERIF-COUNT tracing__issued_keys_are_registered_and_valid {n}");
 }
 
-// @obl props=C18 tier=quick fn=api::Covercrypt::recaps shape="originals with 1-3 targets (classic / hybridized) made under the first public key; after nothing / rekey / rekey+prune / disable / delete: audience of the re-encapsulation = rights of the original the master key still opens and publishes; 6 keys (refreshed and stale)"
+// @obl props=C18 tier=quick fn=api::Covercrypt::recaps shape="originals with 1-3 targets (classic / hybridized / mixed) made under the first public key; after nothing / rekey / rekey+prune / disable / delete: audience of the re-encapsulation = rights of the original the master key still opens and publishes; 6 keys (refreshed and stale)"
 #[test]
 fn recaps__preserves_the_audience() {
     let mut n = 0u64;
-    let originals = ["SEC::LOW && DPT::FIN", "(SEC::LOW && DPT::FIN) || DPT::HR", "(SEC::TOP && DPT::FIN) || (SEC::TOP && DPT::MKG)", "DPT::HR || DPT::MKG || DPT::RD"];
+    let originals = ["SEC::LOW && DPT::FIN", "(SEC::LOW && DPT::FIN) || DPT::HR", "(SEC::TOP && DPT::FIN) || (SEC::TOP && DPT::MKG)", "DPT::HR || DPT::MKG || DPT::RD",
+        // mixed flavours: classic encapsulation targeting a hybridized right as well
+        "(SEC::TOP && DPT::FIN) || (SEC::LOW && DPT::HR)", "(SEC::TOP && DPT::MKG) || DPT::RD"];
     let users = ["SEC::TOP && DPT::FIN", "DPT::HR", "SEC::LOW && DPT::MKG", "SEC::TOP && DPT::MKG", "DPT::RD", "SEC::LOW && DPT::FIN"];
     for scenario in 0..5 {
         let cc = Covercrypt::default();
@@ -884,6 +897,17 @@ fn signature__structural_tampering_is_rejected() {
     if let Some(i) = c1.iter().position(|x| x.1.len() > 1) {
         let mut c = c1.clone(); let mut l: Vec<_> = c[i].1.iter().cloned().collect(); l.reverse(); c[i].1 = l.into_iter().collect(); mutants.push(("revisions reordered inside a chain".into(), rebuild(&k1, c)));
         let mut c = c1.clone(); let last = c[i].1.pop_back().unwrap(); let j = (i + 1) % c.len(); c[j].1.push_back(last); mutants.push(("secret moved to another chain".into(), rebuild(&k1, c)));
+    }
+    for i in 0..c1.len().saturating_sub(1) {
+        // the last secret of a chain becomes the first secret of the next chain: the flat sequence of secrets is unchanged
+        if c1[i].1.len() > 1 && !c1[i + 1].0 .0.is_empty() {
+            let mut c = c1.clone(); let last = c[i].1.pop_back().unwrap(); c[i + 1].1.push_front(last);
+            mutants.push((format!("last secret of chain {i} moved to the front of the next chain"), rebuild(&k1, c)));
+        }
+        if c1[i + 1].1.len() > 1 && !c1[i + 1].0 .0.is_empty() {
+            let mut c = c1.clone(); let first = c[i + 1].1.pop_front().unwrap(); c[i].1.push_back(first);
+            mutants.push((format!("first secret of chain {} moved to the end of the previous chain", i + 1), rebuild(&k1, c)));
+        }
     }
     if let Some(i) = c1.iter().position(|x| x.1.iter().any(|s| s.is_hybridized())) {
         let mut c = c1.clone(); c[i].1 = c[i].1.iter().map(|s| s.drop_hybridization()).collect(); mutants.push(("flavour changed (KEM key dropped)".into(), rebuild(&k1, c)));
